@@ -87,10 +87,13 @@ Definition wap_headers_ok (hdrs : list str) : bool :=
               (match assoc (lit "x-wap-profile") h with Some _ => true | None =>
                match assoc (lit "x-up-devcap-max-pdu") h with Some _ => true | None => false end end)
   end.
+(* the target is the configured prefix itself or continues with "/" or "?" (whole path segment) *)
+Definition wap_prefixed (waptop u : str) : bool :=
+  str_eqb u waptop || prefixb (waptop ++ [47]) u || prefixb (waptop ++ [63]) u.
 Definition wap_shape (waptop : str) (req : str) (hdrs : list str) : bool :=
   http_shape req &&
   match http_parts req with
-  | [_; u; _] => prefixb waptop u || wap_headers_ok hdrs
+  | [_; u; _] => wap_prefixed waptop u || wap_headers_ok hdrs
   | _ => false
   end.
 
